@@ -788,8 +788,16 @@ func c20MixRound(run *common.Run, ch *c20Child, round int, scenario int) (int, s
 	}
 	drive.MutateRows(s.Data, tname, entries)
 	if scenario == 4 {
-		// a table of ~12 MB: more than the storage engine keeps in its write buffer, so scans read from flushed table
+		// a table of ~12 MB and ~20000 rows: more than the storage engine keeps in its write buffer, so scans read from flushed table
 		// files while the table is cleared under them
+		// ... and of more than 16384 rows (any per-request row-count threshold of the storage layer is crossed too)
+		for b := 0; b < 4; b++ {
+			entries = entries[:0]
+			for i := 0; i < 4500; i++ {
+				entries = append(entries, drive.Entry{Key: fmt.Sprintf("s%d-%05d", b, i), Muts: []model.Mut{{Kind: model.SetCell, Fam: "f1", Qual: "q", TS: 1000, Val: "s"}}})
+			}
+			drive.MutateRows(s.Data, tname, entries)
+		}
 		big := strings.Repeat(gen.BigVal, 2)
 		for b := 0; b < 4; b++ {
 			entries = entries[:0]
@@ -923,6 +931,9 @@ func c20MixRound(run *common.Run, ch *c20Child, round int, scenario int) (int, s
 			var es []*btpb.MutateRowsRequest_Entry
 			for i := 0; i < 900; i++ {
 				es = append(es, &btpb.MutateRowsRequest_Entry{RowKey: []byte(fmt.Sprintf("b0-%05d", i)), Mutations: drive.MutsToProto([]model.Mut{{Kind: model.SetCell, Fam: "f2", Qual: "big", TS: 1000, Val: big}})})
+			}
+			for i := 0; i < 17000; i++ {
+				es = append(es, &btpb.MutateRowsRequest_Entry{RowKey: []byte(fmt.Sprintf("s0-%05d", i)), Mutations: drive.MutsToProto([]model.Mut{{Kind: model.SetCell, Fam: "f1", Qual: "q", TS: 1000, Val: "s"}})})
 			}
 			if st, e := data.MutateRows(ctx, &btpb.MutateRowsRequest{TableName: tname, Entries: es}); e == nil {
 				for {
